@@ -16,7 +16,7 @@ pub proof fn axiom_slice_len_stable<T>(x: &mut [T])
 {}
 
 //@ import kernels addmul_nx1
-//@ import kernels add_nx1
+//@ import addnx1 add_nx1
 
 
 // window bookkeeping: `lhs` is the suffix of the original slice starting at `off`
